@@ -168,7 +168,7 @@ pub fn run(ctx: &Ctx) -> i32 {
     let stats = Stats::new();
     let mut outcome = Outcome::new();
     let known = load_known("C09");
-    let fails = run_tapes(ctx, "side_effect_claims", ctx.tier.pick(12_000, 250_000), 4000, &stats, case);
+    let fails = run_tapes_opts(ctx, "side_effect_claims", ctx.tier.pick(12_000, 250_000), 4000, 250, &stats, case);
     outcome.absorb(&known, fails);
     finish(
         ctx,
